@@ -167,6 +167,16 @@ theorem pop_after_step (s s1 : SimS) (head e : SEvent) (q : Array SEvent) (h : Q
   · have := (hev e hm).2
     omega
 
+/-- At the moment an event is popped nothing that stays queued is overdue: every remaining
+event has a time ≥ the clock (= the popped event's time). -/
+theorem nothing_overdue_at_pop (s s1 : SimS) (head e : SEvent) (q : Array SEvent) (h : QInv s)
+    (hh : s.queue[0]? = some head) (hs : StepOK s (head.ev.time - s.now) s1)
+    (hp : heappop SEvent.lt s1.queue = some (e, q)) : ∀ y ∈ q, s1.now ≤ y.ev.time := by
+  intro y hy
+  have h1 := hs.qinv h
+  rw [(pop_after_step s s1 head e q h hh hs hp).2]
+  exact SEvent.time_le_of_not_lt ((pop_is_min s1 e q h1 hp).2.2.1 y hy)
+
 attribute [local spec] handleEvent_q step_rel
 
 theorem iter_q : KeepsQ iter := by
